@@ -20,8 +20,9 @@ from harness.core import Ctx, VERIF, enc_labels
 RULE = (
     "cases come from one SplitMix64 state: clusters of related names (a base name and variants: ASCII case swapped "
     "on the whole name / one label / one octet, one octet moved to a neighbour in the pool "
-    "{00,01,2d,30,39,40,41,5a,5b,5c,5d,5e,5f,60,61,7a,7b,7f,80,fe,ff}, a label truncated or extended by 00, a label "
-    "prepended or dropped, relativity flipped), label lengths from {1,2,3,5,31,62,63}, names pushed to 253..255 wire "
+    "{00,01,2d,2e,30,39,40,41,5a,5b,5c,5d,5e,5f,60,61,7a,7b,7f,80,fe,ff}, a label truncated or extended by 00, a label "
+    "prepended or dropped, relativity flipped, a label boundary moved across / removed at / inserted at an inner 2e, 00 "
+    "or nothing so that the labels joined by that separator coincide), label lengths from {1,2,3,5,31,62,63}, names pushed to 253..255 wire "
     "octets; pairs and triples are drawn mostly from one cluster; successor/predecessor cases add labels ending in "
     "@ Z [ { 00 ff, all-ff labels, maximal labels and names, name == origin, both prefix_ok values, relative names; "
     "a case is non-trivial if its key (kind + inputs) is new"
@@ -37,7 +38,7 @@ ASSUMPTIONS = [
     "IDNA/unicode paths are outside the model",
 ]
 
-OCTETS = [0x00, 0x01, 0x2D, 0x30, 0x39, 0x40, 0x41, 0x5A, 0x5B, 0x5C, 0x5D, 0x5E, 0x5F, 0x60, 0x61, 0x7A, 0x7B, 0x7F,
+OCTETS = [0x00, 0x01, 0x2D, 0x2E, 0x30, 0x39, 0x40, 0x41, 0x5A, 0x5B, 0x5C, 0x5D, 0x5E, 0x5F, 0x60, 0x61, 0x7A, 0x7B, 0x7F,
           0x80, 0xFE, 0xFF]
 LETTERS = [0x61, 0x62, 0x41, 0x42, 0x7A, 0x5A]
 LEN_POOL = [1, 1, 1, 2, 2, 3, 5, 31, 62, 63]
@@ -151,7 +152,12 @@ def variant(rng, base):
         ls = list(base)
         absolute = is_abs(ls)
         body = ls[:-1] if absolute else ls
-        m = rng.below(12)
+        m = rng.below(14)
+        if m >= 12:
+            bm = boundary_move(rng, ls)
+            if bm is not None:
+                return bm[1] if rng.chance(1, 2) else [bytes(swap_octet(c) for c in l) for l in bm[1]]
+            continue
         if m == 0:
             body = [bytes(swap_octet(c) for c in l) for l in body]
         elif m == 1 and body:
@@ -195,6 +201,88 @@ def variant(rng, base):
         if wf(ls):
             return ls
     return list(base)
+
+
+SEPS = [b".", b".", b"\x00", b""]
+
+
+def boundary_move(rng, base, want=None):
+    """a name whose labels, joined by some separator (2e, 00 or nothing), give the same octet string as `base`'s, but
+    with a label boundary somewhere else: same label count (boundary shifted between two adjacent labels), one label
+    fewer (two labels merged around the separator) or one more (a label split at the separator).  None if impossible."""
+    absolute = is_abs(base)
+    body = list(base[:-1] if absolute else base)
+    sep = rng.choice(SEPS)
+    mode = want if want is not None else rng.choice(["shift", "shift", "shift", "merge", "split"])
+    for _ in range(6):
+        if mode in ("shift", "merge") and len(body) >= 2:
+            i = rng.below(len(body) - 1)
+            l1, l2 = body[i], body[i + 1]
+            if mode == "merge":
+                m = l1 + sep + l2
+                cand = body[:i] + [m] + body[i + 2:]
+            else:
+                joined = l1 + sep + l2
+                if sep:
+                    cuts = [k for k in range(1, len(joined) - 1) if joined[k:k + 1] == sep and k != len(l1)]
+                    if not cuts:
+                        # plant a separator inside one of the two labels, then move the boundary onto it
+                        if rng.chance(1, 2) and len(l1) >= 2:
+                            k = rng.range(1, len(l1) - 1)
+                            l1 = l1[:k] + sep + l1[k + 1:]
+                        elif len(l2) >= 2:
+                            k = rng.range(1, len(l2) - 1)
+                            l2 = l2[:k] + sep + l2[k + 1:]
+                        else:
+                            l1 = l1 + sep + bytes([rng.choice(LETTERS)])
+                        body[i], body[i + 1] = l1, l2
+                        joined = l1 + sep + l2
+                        cuts = [k for k in range(1, len(joined) - 1) if joined[k:k + 1] == sep and k != len(l1)]
+                    if not cuts:
+                        continue
+                    k = rng.choice(cuts)
+                    n1, n2 = joined[:k], joined[k + 1:]
+                else:
+                    cuts = [k for k in range(1, len(joined)) if k != len(l1)]
+                    if not cuts:
+                        body[i] = l1 + bytes([rng.choice(LETTERS)])
+                        continue
+                    k = rng.choice(cuts)
+                    n1, n2 = joined[:k], joined[k:]
+                cand = body[:i] + [n1, n2] + body[i + 2:]
+        elif mode in ("shift", "merge"):
+            body = [gen_label(rng, 8)] + body
+            continue
+        elif body:
+            i = rng.below(len(body))
+            l = body[i]
+            if sep:
+                cuts = [k for k in range(1, len(l) - 1) if l[k:k + 1] == sep]
+                if not cuts and len(l) >= 3:
+                    k = rng.range(1, len(l) - 2)
+                    l = l[:k] + sep + l[k + 1:]
+                    body[i] = l
+                    cuts = [k]
+                if not cuts:
+                    body[i] = l + bytes([rng.choice(LETTERS)])
+                    continue
+                k = rng.choice(cuts)
+                cand = body[:i] + [l[:k], l[k + 1:]] + body[i + 1:]
+            else:
+                if len(l) < 2:
+                    body[i] = l + bytes([rng.choice(LETTERS)])
+                    continue
+                k = rng.range(1, len(l) - 1)
+                cand = body[:i] + [l[:k], l[k:]] + body[i + 1:]
+        else:
+            body = [gen_label(rng, 5), gen_label(rng, 5)]
+            continue
+        a = body + ([b""] if absolute else [])
+        b = cand + ([b""] if absolute else [])
+        if wf(a) and wf(b) and a != b:
+            return a, b
+        body = [x[:20] for x in body][:4] or [b"a.b", b"c"]
+    return None
 
 
 def cluster(rng, k):
@@ -316,6 +404,18 @@ def check_pair(ctx, a, b, rep):
             ctx.fail(f"C06/richcmp/{k}", f"{k} gives {got}, reference {exp}: {what}", rep)
     if (A == B) != ([low(x) for x in a] == [low(x) for x in b]):
         ctx.fail("C06/eq/case-fold", f"== is not 'equal up to ASCII case': {what}", rep)
+    eqv, nev, ltv, gtv = bool(A == B), bool(A != B), bool(A < B), bool(A > B)
+    if eqv != (order == 0) or bool(B == A) != eqv:
+        ctx.fail("C06/eq/order-zero", f"== is {eqv} (reversed {bool(B == A)}) but fullcompare order is {order}: {what}", rep)
+    if nev == eqv:
+        ctx.fail("C06/ne/negation", f"== and != are both {eqv}: {what}", rep)
+    if [ltv, eqv, gtv].count(True) != 1:
+        ctx.fail("C06/order/trichotomy", f"(<, ==, >) = {(ltv, eqv, gtv)}: {what}", rep)
+    if bool(A <= B) != (ltv or eqv) or bool(A >= B) != (gtv or eqv):
+        ctx.fail("C06/order/le-ge", f"<= / >= disagree with < / == / >: {what}", rep)
+    d = {A: 1}
+    if (B in d) != (r == 0) or len({A, B}) != (1 if r == 0 else 2) or (B in (A,)) != (r == 0):
+        ctx.fail("C06/hash/container-membership", f"dict/set/tuple membership disagrees with canonical equality ({r == 0}): {what}", rep)
     if A == B and hash(A) != hash(B):
         ctx.fail("C06/hash/equal-names-differ", f"equal names hash differently: {what}", rep)
     rel2, order2, nl2 = B.fullcompare(A)
@@ -547,6 +647,20 @@ def generate(ctx: Ctx, scale, rng):
             c = {"kind": "pair", "a": hexl(a), "b": hexl(b)}
             ctx.case(("pair", tuple(a), tuple(b)), nontrivial=(a != b), sample=c)
             eval_case(ctx, c)
+    for _ in range(n(1500)):
+        bm = boundary_move(rng, gen_labels(rng, budget=rng.choice([30, 120, 255])))
+        if bm is None:
+            continue
+        a, b = bm
+        m = rng.below(4)
+        if m == 0:
+            b = [bytes(swap_octet(ch) for ch in l) for l in b]
+        elif m == 1:
+            a, b = b, a
+        c = {"kind": "pair", "a": hexl(a), "b": hexl(b)}
+        ctx.case(("pair", tuple(a), tuple(b)), sample=c)
+        eval_case(ctx, c)
+        ctx.count("pair.boundary-move." + ("same-count" if len(a) == len(b) else "other-count"))
     for _ in range(n(3000)):
         cl = cluster(rng, 6)
         a, b, cc = rng.choice(cl), rng.choice(cl), (rng.choice(cl) if rng.chance(5, 6) else gen_labels(rng))
